@@ -22,5 +22,9 @@ structure DState where
   bld : Option SetB := none
   exp : ExpState := {}
   specExp : ExpSpec.Tracker := {}
+  e2eExp : ExpState := {}
+  e2eColl : CState := {}
+  e2eMode : Mode := .strict
+  e2eSpecDom : Nat := 0
 
 end Driver
